@@ -82,7 +82,7 @@ Record world := mkW {
   w_sig : sigtab;
   w_flag : bool;                    (* not_reentrant's _calls[run] *)
   w_sp : spinner;
-  w_ran : list nat;                 (* tokens of the function's delayed calls that have run *)
+  w_ran : list nat;                 (* tokens of the delayed calls that have run, in order (0 = the timeout call) *)
   w_reentry : option bool           (* Some b: a re-entrant call was tried; b = it raised ReentryError *)
 }.
 Definition new_world (orc : list nat) := mkW (new_reactor orc) SReal [] false new_spinner [] None.
@@ -117,13 +117,24 @@ Definition cancel_timeout (w : world) : world :=
   | None => w
   end.
 
-(* _got_success / _got_failure, 192-198 *)
-Definition got (o : outcome) (w : world) : world :=
-  let w := cancel_timeout w in
-  match o with
-  | Succeed v => set_sp (sp_set_result (Some v) (sp_failure (w_sp w)) (w_sp w)) w
-  | Fail e => set_sp (sp_set_result (sp_success (w_sp w)) (Some (EUser e)) (w_sp w)) w
+(* is the DelayedCall of the timeout still pending (neither called nor cancelled) *)
+Definition timeout_pending (w : world) : bool :=
+  match sp_timeout_call (w_sp w) with
+  | Some s => existsb (fun c => Nat.eqb (dc_seq c) s) (queue (w_r w))
+  | None => false
   end.
+
+(* _got_success / _got_failure, 192-198.  DelayedCall.cancel() on a call that has already run raises
+   AlreadyCalled: the callback then fails BEFORE it records anything (the failure is swallowed by the
+   addBoth(_stop_reactor) that follows) *)
+Definition got (o : outcome) (w : world) : world :=
+  if timeout_pending w then
+    let w := cancel_timeout w in
+    match o with
+    | Succeed v => set_sp (sp_set_result (Some v) (sp_failure (w_sp w)) (w_sp w)) w
+    | Fail e => set_sp (sp_set_result (sp_success (w_sp w)) (Some (EUser e)) (w_sp w)) w
+    end
+  else w.
 
 (* _timed_out, 218-221 *)
 Definition timed_out (w : world) : world :=
@@ -141,7 +152,7 @@ Definition log_ran (t : nat) (w : world) : world := set_ran (w_ran w ++ [t]) w.
 (* a delayed call runs *)
 Definition exec_call (c : dcall action) (w : world) : world :=
   match dc_act c with
-  | ATimeout => timed_out w
+  | ATimeout => timed_out (log_ran tok_timeout w)
   | AFire o => stop_reactor (got o (log_ran tok_fire w))   (* addCallbacks(_got_success, _got_failure); addBoth(_stop_reactor) *)
   | AStopReq => reactor_stop (log_ran tok_stop w)
   | ANoop t => log_ran t w
@@ -195,8 +206,8 @@ Definition restore_signals (w : world) : world :=
 Definition install_reactor_signals (w : world) : world :=
   set_sig (fold_left (fun t s => setsig s h_reactor t) reactor_signals (w_sig w)) w.
 
-Definition reactor_run_w inner (fuel : nat) (w : world) : loop_end * world :=
-  reactor_run w_r set_r exec_call (exec_hook inner) fuel (install_reactor_signals w).
+Definition reactor_run_w inner (batch : bool) (fuel : nat) (w : world) : loop_end * world :=
+  reactor_run w_r set_r exec_call (exec_hook inner) batch fuel (install_reactor_signals w).
 
 (* _get_result, 185-190 *)
 Definition get_result (sp : spinner) : res value exc :=
@@ -218,7 +229,7 @@ Definition clean (iters : nat) (w : world) : world :=
   set_sp (sp_set_junk (sp_junk (w_sp w) ++ map (fun c => tok_of (dc_act c)) dcs ++ sels) (w_sp w)) w.
 
 (* the body of run, 298-331 *)
-Definition run_body inner (iters : nat) (T : time) (f : fn) (w : world) : res value exc * world :=
+Definition run_body inner (iters : nat) (batch : bool) (T : time) (f : fn) (w : world) : res value exc * world :=
   match sp_junk (w_sp w) with
   | _ :: _ => (Raised EStaleJunk, w)
   | [] =>
@@ -231,7 +242,7 @@ Definition run_body inner (iters : nat) (T : time) (f : fn) (w : world) : res va
       let w := set_r (call_when_running (ARunFunction T f) (w_r w)) w in
       let w := set_sp (sp_set_spinning true (w_sp w)) w in
       let fuel := length (queue (w_r w)) + length (f_extras f) + 4 in
-      let '(e, w) := reactor_run_w inner fuel w in
+      let '(e, w) := reactor_run_w inner batch fuel w in
       (* finally *)
       let w := set_stop real w in
       let w := restore_signals w in
@@ -249,11 +260,11 @@ Definition guarded (body : world -> res value exc * world) (w : world) : res val
 Definition trivial_fn := mkFn (Sync 0 (Succeed 7)) [] 0 None false false None.
 
 (* a call made from inside the function: the same decorated run, on a trivial function *)
-Definition inner_run (iters : nat) (w : world) : res value exc * world :=
-  guarded (run_body (fun w => (Raised EOther, w)) iters 5 trivial_fn) w.
+Definition inner_run (iters : nat) (batch : bool) (w : world) : res value exc * world :=
+  guarded (run_body (fun w => (Raised EOther, w)) iters batch 5 trivial_fn) w.
 
-Definition run (iters : nat) (T : time) (f : fn) (w : world) : res value exc * world :=
-  guarded (run_body (inner_run iters) iters T f) w.
+Definition run (iters : nat) (batch : bool) (T : time) (f : fn) (w : world) : res value exc * world :=
+  guarded (run_body (inner_run iters batch) iters batch T f) w.
 
 (* clear_junk, 249-256 *)
 Definition clear_junk (w : world) : world := set_sp (sp_set_junk [] (w_sp w)) w.
